@@ -1053,3 +1053,303 @@ Proof.
              a_inwatch a_indust a_dangling nil_b andb negb is_chain].
         now rewrite check_commit_nochain.
 Qed.
+
+(* ------------------------------------------------------------------ *)
+(* the close event handlers                                            *)
+
+Definition kkey (k : close_kind) : ckey :=
+  match k with KLocal => CLocal | KPending => CPending | _ => CRemote end.
+Definition ktrig (k : close_kind) : trigger :=
+  match k with KLocal => TLocalClose | _ => TRemoteClose end.
+Definition uni (k : close_kind) : bool :=
+  match k with KLocal | KRemote | KPending => true | _ => false end.
+Definition start_ok (a : arb) : Prop :=
+  ar_state a = SDefault \/ ar_state a = SCommitmentBroadcasted.
+
+Lemma ktrig_nochain k : is_chain (ktrig k) = false.
+Proof. now destruct k. Qed.
+
+Lemma on_close_uni fixed e a k height c r active :
+  uni k = true -> start_ok a -> r_breach r = false ->
+  exists a' ef,
+    on_close fixed e a k height c r active = Some (a', ef) /\
+    f_fail ef = close_fail fixed e (ar_state a) height (ktrig k) (kkey k) c r /\
+    f_final ef = close_final fixed e height (ktrig k) (kkey k) c r /\
+    f_resolvers ef = close_resolvers fixed e height (ktrig k) (kkey k) c r /\
+    f_force ef = 0 /\ closed_state (ar_state a') = true.
+Proof.
+  intros U S Hb.
+  assert (FT : is_force_close_kind (ktrig k) = true) by now destruct k.
+  destruct (advance_close fixed e (ar_state a) (ar_unres a) height (ktrig k) (kkey k) c
+                          active r S FT Hb)
+    as (st' & u' & ef & Adv & F1 & F2 & F3 & F4 & CS).
+  exists (mkArb st' u' (Some r)), ef.
+  split; [|tauto].
+  destruct k; try discriminate U; unfold on_close, run_adv;
+    cbn [ar_state ar_unres ar_res kkey ktrig] in *; now rewrite Adv.
+Qed.
+
+Definition conf_of (k : close_kind) (c : csets) : list htlc := conf_set (kkey k) c.
+
+(* what every close step guarantees, whatever came before *)
+Definition close_guarantees (e : env) (k : close_kind) (c : csets) (ef : eff) : Prop :=
+  (forall h, In h (outs (conf_of k c)) -> h_dust h = false ->
+             cnt (h_idx h) (res_idxs out_kind (f_resolvers ef)) = 1%nat /\
+             cnt (h_idx h) (f_fail ef) = O) /\
+  (forall h, In h (ins (conf_of k c)) -> h_dust h = false ->
+             cnt (h_idx h) (res_idxs in_kind (f_resolvers ef)) = 1%nat) /\
+  (forall h, In h (ins (conf_of k c)) -> h_dust h = true ->
+             cnt (h_idx h) (f_final ef) = 1%nat).
+
+Lemma close_step fixed e a k height c r active :
+  uni k = true -> start_ok a -> r_breach r = false -> wf c ->
+  res_complete r (conf_of k c) ->
+  exists a' ef,
+    on_close fixed e a k height c r active = Some (a', ef) /\
+    closed_state (ar_state a') = true /\ f_force ef = 0 /\
+    f_fail ef = close_fail fixed e (ar_state a) height (ktrig k) (kkey k) c r /\
+    close_guarantees e k c ef.
+Proof.
+  intros U S Hb W RC.
+  destruct (on_close_uni fixed e a k height c r active U S Hb)
+    as (a' & ef & On & F1 & F2 & F3 & F4 & CS).
+  exists a', ef. repeat split; try assumption.
+  - rewrite F3. apply close_resolvers_out; try assumption. apply ktrig_nochain.
+  - rewrite F1. apply cnt_zero_iff. apply close_fail_output; try assumption.
+    apply ktrig_nochain.
+  - intros h I D. rewrite F3. apply close_resolvers_in; try assumption. apply ktrig_nochain.
+  - intros h I D. rewrite F2. apply close_final_dust; try assumption. apply ktrig_nochain.
+Qed.
+
+(* ---- direct path, today's code ---- *)
+Lemma classification_direct e k height c r :
+  uni k = true -> r_breach r = false -> wf c -> res_complete r (conf_of k c) ->
+  exists a' ef,
+    on_close false e arb0 k height c r c = Some (a', ef) /\
+    closed_state (ar_state a') = true /\
+    close_guarantees e k c ef /\
+    (forall x, must_fail e (kkey k) c x -> cnt x (f_fail ef) = 1%nat).
+Proof.
+  intros U Hb W RC.
+  destruct (close_step false e arb0 k height c r c U (or_introl eq_refl) Hb W RC)
+    as (a' & ef & On & CS & _ & F & G).
+  exists a', ef. split; [assumption|]. split; [assumption|]. split; [assumption|].
+  intros x M. rewrite F. cbn [ar_state arb0].
+  apply close_fail_direct_once; [apply ktrig_nochain| assumption| assumption].
+Qed.
+
+(* ---- broadcast first ---- *)
+Definition trigger_step (fixed : bool) (e : env) (user : bool) (height : N) (c : csets)
+  : option (arb * eff) :=
+  if user then on_user fixed e arb0 height c else on_block fixed e arb0 height c.
+
+Lemma trigger_step_broadcast fixed e user height c a1 ef1 :
+  trigger_step fixed e user height c = Some (a1, ef1) -> f_force ef1 = 1 ->
+  ar_state a1 = SCommitmentBroadcasted /\
+  f_fail ef1 = nodup_n (idxs (a_faildust
+                 (check_local fixed e height (if user then TUser else TChain) c false))) /\
+  (user = true \/ acts_empty (check_local fixed e height TChain c false) = false).
+Proof.
+  unfold trigger_step. destruct user.
+  - rewrite on_user_default by reflexivity. intros [= <- <-] _. cbn. tauto.
+  - rewrite on_block_default by reflexivity. cbv zeta.
+    destruct (acts_empty (check_local fixed e height TChain c false)) eqn:E.
+    + intros [= <- <-]. cbn. discriminate.
+    + intros [= <- <-] _. cbn. tauto.
+Qed.
+
+Definition local_sub_conf (k : close_kind) (c : csets) : Prop :=
+  forall l, In l (outs (c_local c)) -> In (h_idx l) (idxs (outs (conf_of k c))).
+
+Lemma classification_broadcast_partial e user h0 k h1 c r a1 ef1 :
+  uni k = true -> r_breach r = false -> wf c -> res_complete r (conf_of k c) ->
+  local_sub_conf k c ->
+  trigger_step false e user h0 c = Some (a1, ef1) -> f_force ef1 = 1 ->
+  exists a2 ef2,
+    on_close false e a1 k h1 c r c = Some (a2, ef2) /\
+    closed_state (ar_state a2) = true /\
+    close_guarantees e k c ef2 /\
+    (forall x, (cnt x (f_fail ef1 ++ f_fail ef2) <= 1)%nat) /\
+    (forall x, In x (idxs (others (kkey k) c)) -> ~ In x (idxs (outs (conf_of k c))) ->
+               no_pre e c x ->
+               (forall m, In m (others (kkey k) c) -> h_idx m = x -> h_dust m = false) ->
+               cnt x (f_fail ef1 ++ f_fail ef2) = 1%nat).
+Proof.
+  intros U Hb W RC Sh Tr Fc.
+  apply trigger_step_broadcast in Tr as (S1 & F1 & _); [|assumption].
+  destruct (close_step false e a1 k h1 c r c U (or_intror S1) Hb W RC)
+    as (a2 & ef2 & On & CS & _ & F2 & G).
+  exists a2, ef2. split; [assumption|]. split; [assumption|]. split; [assumption|].
+  rewrite S1 in F2. unfold close_fail in F2. cbn [app] in F2.
+  assert (LE : forall x, (cnt x (f_fail ef1 ++ f_fail ef2) <= 1)%nat).
+  { intros x. rewrite cnt_app, F1, F2.
+    destruct (res_empty r && cs_empty c).
+    { cbn [cnt]. pose proof (cnt_nodup_le x (idxs (a_faildust (check_local false e h0
+                                  (if user then TUser else TChain) c false)))). lia. }
+    rewrite closed_set_unfixed.
+    set (L1 := idxs (a_faildust _)). set (L2 := idxs (a_dangling _)).
+    pose proof (cnt_nodup_le x L1) as B1. pose proof (cnt_nodup_le x L2) as B2.
+    destruct (cnt x (nodup_n L1)) as [|n1] eqn:E1; [lia|].
+    destruct (cnt x (nodup_n L2)) as [|n2] eqn:E2; [lia|].
+    exfalso.
+    assert (I1 : In x L1).
+    { apply nodup_n_in. destruct (cnt_zero_iff x (nodup_n L1)) as [_ Z].
+      destruct (in_dec N.eq_dec x (nodup_n L1)) as [i|ni]; [assumption|].
+      specialize (Z ni). lia. }
+    assert (I2 : In x L2).
+    { apply nodup_n_in. destruct (cnt_zero_iff x (nodup_n L2)) as [_ Z].
+      destruct (in_dec N.eq_dec x (nodup_n L2)) as [i|ni]; [assumption|].
+      specialize (Z ni). lia. }
+    subst L1 L2.
+    apply (proj1 (construct_dangling false e h1 (ktrig k) (kkey k) c x (ktrig_nochain k)))
+      in I2 as (m' & Im' & D' & E').
+    apply trigger_faildust_sub in I1 as [(l & Il & El & Dl)|(m & Im & Dm & Em & _)].
+    - apply cand_props in Im' as (NC & _). apply NC. rewrite E', <- El. now apply Sh.
+    - assert (h_dust m = h_dust m')
+        by (eapply cand_merged_dust; try eassumption; congruence).
+      congruence. }
+  split; [exact LE|].
+  intros x Io NC NP ND.
+  assert (GE : (1 <= cnt x (f_fail ef2))%nat).
+  { rewrite F2.
+    assert (NE : cs_empty c = false) by (eapply others_nonempty; eassumption).
+    rewrite NE, andb_false_r. rewrite closed_set_unfixed.
+    rewrite cnt_nodup_in; [lia|].
+    apply (proj2 (construct_dangling false e h1 (ktrig k) (kkey k) c x (ktrig_nochain k))).
+    pose proof (cand_covers e h1 (kkey k) c x Io NC NP) as Ic.
+    apply in_idxs in Ic as (m & Im & Em). exists m. split; [assumption|].
+    split; [|assumption]. apply ND; [|assumption].
+    pose proof (cand_props e h1 (kkey k) c m Im) as (NC' & _ & J).
+    destruct k; try discriminate U; cbn [kkey others]; cbn [kkey conf_set] in *.
+    - apply in_app_iff. tauto.
+    - destruct J as [J|J]; [|assumption]. exfalso.
+      apply NC'. apply in_idxs. now exists m.
+    - destruct J as [J|J]; [assumption|]. exfalso.
+      apply NC'. apply in_idxs. now exists m. }
+  specialize (LE x). rewrite cnt_app in *. lia.
+Qed.
+
+(* ---- with the candidate fix: every must-fail index at least once ---- *)
+Lemma local_dust_dec c x : local_dust c x \/ ~ local_dust c x.
+Proof.
+  destruct (existsb (fun l => N.eqb (h_idx l) x && h_dust l) (outs (c_local c))) eqn:E.
+  - left. apply existsb_exists in E as (l & I & P). apply andb_true_iff in P as [P Q].
+    apply N.eqb_eq in P. now exists l.
+  - right. intros (l & I & P & Q).
+    assert (T : existsb (fun l => N.eqb (h_idx l) x && h_dust l) (outs (c_local c)) = true).
+    { apply existsb_exists. exists l. split; [assumption|]. rewrite Q, andb_true_r.
+      now apply N.eqb_eq. }
+    congruence.
+Qed.
+
+Lemma classification_fixed_direct e k height c r :
+  uni k = true -> r_breach r = false -> wf c -> res_complete r (conf_of k c) ->
+  exists a' ef,
+    on_close true e arb0 k height c r c = Some (a', ef) /\
+    closed_state (ar_state a') = true /\
+    close_guarantees e k c ef /\
+    (forall x, must_fail e (kkey k) c x -> (1 <= cnt x (f_fail ef))%nat).
+Proof.
+  intros U Hb W RC.
+  destruct (close_step true e arb0 k height c r c U (or_introl eq_refl) Hb W RC)
+    as (a' & ef & On & CS & _ & F & G).
+  exists a', ef. split; [assumption|]. split; [assumption|]. split; [assumption|].
+  intros x M. rewrite F. cbn [ar_state arb0].
+  apply close_fail_direct_fixed; [apply ktrig_nochain| assumption| assumption].
+Qed.
+
+Lemma classification_fixed_broadcast e user h0 k h1 c r a1 ef1 :
+  uni k = true -> r_breach r = false -> wf c -> res_complete r (conf_of k c) ->
+  trigger_step true e user h0 c = Some (a1, ef1) -> f_force ef1 = 1 ->
+  exists a2 ef2,
+    on_close true e a1 k h1 c r c = Some (a2, ef2) /\
+    closed_state (ar_state a2) = true /\
+    close_guarantees e k c ef2 /\
+    (forall x, must_fail e (kkey k) c x -> (1 <= cnt x (f_fail ef1 ++ f_fail ef2))%nat).
+Proof.
+  intros U Hb W RC Tr Fc.
+  apply trigger_step_broadcast in Tr as (S1 & F1 & Why); [|assumption].
+  destruct (close_step true e a1 k h1 c r c U (or_intror S1) Hb W RC)
+    as (a2 & ef2 & On & CS & _ & F2 & G).
+  exists a2, ef2. split; [assumption|]. split; [assumption|]. split; [assumption|].
+  intros x M. rewrite cnt_app, F1, F2, S1. unfold close_fail. cbn [app].
+  rewrite (must_fail_nonempty e (kkey k) c x M), andb_false_r.
+  destruct (must_fail_split true e h1 (ktrig k) (kkey k) c x (ktrig_nochain k) W M)
+    as [[A B]|[A B]].
+  - destruct (local_dust_dec c x) as [L|NL].
+    + rewrite cnt_nodup_in; [lia|].
+      apply trigger_faildust_local; [|assumption].
+      destruct Why as [->|NE]; [now left|].
+      destruct user; [now left|right; tauto].
+    + rewrite (cnt_nodup_in x (idxs (closed_failback_set true c _)))
+        by (apply closed_set_fixed; assumption). lia.
+  - rewrite (cnt_nodup_in x (idxs (closed_failback_set true c _)))
+      by now apply closed_set_dangling. lia.
+Qed.
+
+(* ---- breach ---- *)
+Lemma breach_all_failed fixed e a height c r active :
+  start_ok a ->
+  exists a' ef,
+    on_close fixed e a KBreach height c r active = Some (a', ef) /\
+    (forall h, In h (outs (c_remote c) ++ outs (c_pending c)) ->
+               (1 <= cnt (h_idx h) (f_fail ef))%nat) /\
+    res_idxs out_kind (f_resolvers ef) = [] /\
+    res_idxs in_kind (f_resolvers ef) = [].
+Proof.
+  intros S. unfold on_close.
+  set (r' := mkRes true (r_anchor r) false [] []).
+  destruct (advance_breach fixed e (ar_state a) (ar_unres a) height c active r' S eq_refl)
+    as (st' & u' & ef & Adv & F & R & _).
+  exists (mkArb st' u' (Some r')), ef. split.
+  - unfold run_adv. cbn [ar_state ar_unres ar_res]. now rewrite Adv.
+  - split.
+    + intros h I. rewrite F, cnt_app.
+      rewrite (cnt_nodup_in (h_idx h) (idxs (outs (c_remote c) ++ outs (c_pending c)))).
+      * lia.
+      * apply in_idxs. now exists h.
+    + rewrite R. subst r'. cbn [r_anchor]. destruct (r_anchor r); split; reflexivity.
+Qed.
+
+(* ---- no spurious force close: received HTLCs we cannot claim ---- *)
+Lemma no_spurious_received fixed e active height :
+  (forall h, In h (c_local active ++ c_remote active ++ c_pending active) ->
+             h_incoming h = true) ->
+  (forall h, In h (c_local active) -> e_pre e (h_hash h) = false) ->
+  on_block fixed e arb0 height active = Some (arb0, no_eff).
+Proof.
+  intros AllIn NoPre.
+  pose proof (on_block_default fixed e arb0 height active eq_refl) as On. cbv zeta in On.
+  destruct (acts_empty (check_local fixed e height TChain active false)); [exact On|].
+  exfalso.
+  destruct (no_spurious fixed e active height _ _ On) as (h & Wt); [cbn; discriminate|].
+  destruct Wt as [[I _]|[[I [P _]]|[I _]]].
+  - apply in_outs in I as [I Inc]. rewrite AllIn in Inc; [discriminate|].
+    apply in_app_iff. now left.
+  - apply in_ins in I as [I _]. rewrite NoPre in P; [discriminate|assumption].
+  - apply in_app_iff in I as [I|I]; apply in_outs in I as [I Inc];
+      rewrite AllIn in Inc; try discriminate; rewrite !in_app_iff; tauto.
+Qed.
+
+(* ---- the refuting scenario (DESIGN §7-a) ---- *)
+Definition w_env : env := mkEnv 10 10 (fun _ => true) 0 14400 (fun _ => false).
+Definition w_htlc_local : htlc := mkHtlc 7 false 0 500 1.
+Definition w_htlc_remote : htlc := mkHtlc 7 false (-1) 500 1.
+Definition w_sets : csets := mkSets [w_htlc_local] [w_htlc_remote] [].
+Definition w_res : resolutions := mkRes false false true [] [0%Z].
+
+Lemma w_wf : wf w_sets.
+Proof. unfold wf, w_sets. cbn. repeat split; repeat constructor; intros []. Qed.
+
+Lemma w_refutes :
+  exists a1 ef1 a2 ef2,
+    trigger_step false w_env true 100 w_sets = Some (a1, ef1) /\ f_force ef1 = 1 /\
+    on_close false w_env a1 KRemote 101 w_sets w_res w_sets = Some (a2, ef2) /\
+    ar_state a2 = SWaitingFullResolution /\
+    cnt 7 (f_fail ef1 ++ f_fail ef2) = O /\
+    res_idxs out_kind (f_resolvers ef2) = [].
+Proof.
+  do 4 eexists.
+  split; [reflexivity|]. split; [reflexivity|]. split; [reflexivity|].
+  repeat split; reflexivity.
+Qed.
